@@ -358,9 +358,11 @@ Reset == /\ Ev.e = "reset"
          /\ noisy' = {} /\ owed' = {} /\ inbox' = <<>> /\ cmds' = <<>> /\ ipint' = 5000
          /\ cand' = <<>> /\ lost' = {} /\ ncseen' = {} /\ compet' = <<>>
          /\ UNCHANGED <<viol, hits, streak>>
+RECURSIVE LastReset(_)
+LastReset(j) == IF Rec[j].e = "reset" THEN j ELSE LastReset(j - 1)
 Spawn == /\ Ev.e = "spawn"
          /\ myhost' = Ev.host + 1
-         /\ ifs' = Rec[CHOOSE j \in 1..l : Rec[j].e = "reset" /\ \A m \in (j+1)..l : Rec[m].e # "reset"].hosts[Ev.host + 1]
+         /\ ifs' = Rec[LastReset(l)].hosts[Ev.host + 1]
          /\ UNCHANGED <<scen, reg, ann, probes, noisy, owed, inbox, cmds, ipint, viol, hits, streak, cand, lost, ncseen, compet>>
 IfsEv == /\ Ev.e = "ifs"
          /\ ifs' = IF Ev.host + 1 = myhost THEN Ev.ifs ELSE ifs
